@@ -133,7 +133,7 @@ func (w *c15Walker) walk(fn *ssa.Function, env map[*ssa.Parameter]lin, chain []s
 	if depth > 9 {
 		return
 	}
-	chain = append(chain, fn.String())
+	chain = append(chain, FStr(fn))
 	for _, cl := range Calls(fn) {
 		if _, isDefer := cl.(*ssa.Defer); isDefer {
 			continue
@@ -149,7 +149,7 @@ func (w *c15Walker) walk(fn *ssa.Function, env map[*ssa.Parameter]lin, chain []s
 				targets = []*ssa.Function{callee}
 			}
 		} else {
-			key := fn.String() + "|" + dynDesc(cl)
+			key := FStr(fn) + "|" + dynDesc(cl)
 			targets = w.bridges[key]
 		}
 		for _, t := range targets {
@@ -158,7 +158,7 @@ func (w *c15Walker) walk(fn *ssa.Function, env map[*ssa.Parameter]lin, chain []s
 			}
 			onChain := false
 			for _, cn := range chain {
-				if cn == t.String() {
+				if cn == FStr(t) {
 					onChain = true
 				}
 			}
@@ -228,7 +228,7 @@ func checkC15(c *Ctx) {
 			return false
 		}
 		p := f.Pkg.Pkg.Path()
-		if from == lw && p == zp && ast.IsExported(f.Name()) && callsCheck(f) {
+		if from == lw && p == zp && ast.IsExported(FNm(f)) && callsCheck(f) {
 			// the std-log bridge calling the Logger method it stands for directly (rather than through a stored
 			// method value)
 			return true
@@ -237,36 +237,36 @@ func checkC15(c *Ctx) {
 			return true
 		}
 		if p == zp {
-			switch f.Name() {
+			switch FNm(f) {
 			case "Check", "StackSkip", "Stack":
 				return true
 			}
 			// unexported helpers between a front end and the capture (check, log, logln, and whatever they are split
 			// into); an exported method reached from inside zap (sweetenFields reporting through s.base.Error) starts
 			// a chain of its own
-			return !ast.IsExported(f.Name()) && f.Parent() == nil
+			return !ast.IsExported(FNm(f)) && f.Parent() == nil
 		}
 		if p == "log" {
-			return f.Name() == "output"
+			return FNm(f) == "output"
 		}
 		if p == "log/slog" {
-			return f.Name() == "log" || f.Name() == "logAttrs"
+			return FNm(f) == "log" || FNm(f) == "logAttrs"
 		}
 		return false
 	}
 	// bridges for dynamic calls
 	stdOutput := c.Method("log", "Logger", "output")
 	if c.Anchor("R15.1", "log.(*Logger).output (installed toolchain)", stdOutput != nil) {
-		w.bridges[stdOutput.String()+"|invoke (io.Writer).Write"] = []*ssa.Function{lw}
+		w.bridges[FStr(stdOutput)+"|invoke (io.Writer).Write"] = []*ssa.Function{lw}
 	}
 	if dc := dynFuncCall(lw); dc != nil {
-		w.bridges[lw.String()+"|dyn "+Desc(dc.Call.Value)] = []*ssa.Function{c.Method(zp, "Logger", "Info")}
+		w.bridges[FStr(lw)+"|dyn "+Desc(dc.Call.Value)] = []*ssa.Function{c.Method(zp, "Logger", "Info")}
 	} else {
-		w.bridges[lw.String()+"|dyn l.logFunc"] = []*ssa.Function{c.Method(zp, "Logger", "Info")}
+		w.bridges[FStr(lw)+"|dyn l.logFunc"] = []*ssa.Function{c.Method(zp, "Logger", "Info")}
 	}
 	for _, n := range []string{"log", "logAttrs"} {
 		if f := c.Method("log/slog", "Logger", n); f != nil {
-			w.bridges[f.String()+"|invoke (log/slog.Handler).Handle"] = []*ssa.Function{handle}
+			w.bridges[FStr(f)+"|invoke (log/slog.Handler).Handle"] = []*ssa.Function{handle}
 		}
 	}
 	// presets
@@ -347,7 +347,7 @@ func checkC15(c *Ctx) {
 				}
 			}
 		}
-		c.Check(ok, "R15.1", acs.String(), "additive", acs.Pos(), "AddCallerSkip(n) adds exactly n to callerSkip")
+		c.Check(ok, "R15.1", FStr(acs), "additive", acs.Pos(), "AddCallerSkip(n) adds exactly n to callerSkip")
 	}
 	// the slog handler's option does the same: it ADDS to what is there (options of layered wrappers accumulate)
 	if wcs := c.Func(SlogPath, "WithCallerSkip"); c.Anchor("R15.1", "zapslog.WithCallerSkip", wcs != nil && len(wcs.Params) == 1) {
@@ -391,7 +391,7 @@ func checkC15(c *Ctx) {
 				okS = l.c == 0 && l.syms["callerSkip"] == 1 && others == 1
 			})
 		}
-		c.Check(okS && nSt == 1, "R15.1", wcs.String(), "additive", wcs.Pos(), "zapslog.WithCallerSkip(n) adds exactly n to the handler's callerSkip (one store: callerSkip + n)")
+		c.Check(okS && nSt == 1, "R15.1", FStr(wcs), "additive", wcs.Pos(), "zapslog.WithCallerSkip(n) adds exactly n to the handler's callerSkip (one store: callerSkip + n)")
 	}
 
 	// the preset zapslog.NewHandler stores in its handler's callerSkip (none on the reference tree: Handle adds its
@@ -471,7 +471,7 @@ func checkC15(c *Ctx) {
 		w.paths = nil
 		env := map[*ssa.Parameter]lin{}
 		w.walk(e.fn, env, nil, 0)
-		name := e.fn.String()
+		name := FStr(e.fn)
 		if len(w.paths) == 0 {
 			c.Bad("R15.1", name, "chain", e.fn.Pos(), "no static chain from this entry point to runtime.Callers was found")
 			continue
@@ -492,7 +492,7 @@ func checkC15(c *Ctx) {
 			// the logger's own skip: exactly once
 			cs := syms["callerSkip"]
 			delete(syms, "callerSkip")
-			if e.family == "field" && e.fn.Name() == "StackSkip" {
+			if e.family == "field" && FNm(e.fn) == "StackSkip" {
 				delete(syms, "param skip")
 			}
 			okSyms := len(syms) == 0 && (cs == 1 || e.family == "field")
@@ -641,7 +641,7 @@ func c15Conversions(c *Ctx, sugarK int64) {
 		ms := c.SSA.MethodSets.MethodSet(types.NewPointer(named))
 		for i := 0; i < ms.Len(); i++ {
 			fn := c.SSA.MethodValue(ms.At(i))
-			if fn == nil || fn.Signature.Results().Len() != 1 || !ast.IsExported(fn.Name()) {
+			if fn == nil || fn.Signature.Results().Len() != 1 || !ast.IsExported(FNm(fn)) {
 				// unexported helpers have no contract of their own: they are explored inline from the exported methods
 				continue
 			}
@@ -650,8 +650,8 @@ func c15Conversions(c *Ctx, sugarK int64) {
 				continue
 			}
 			d, ok, why := c15SkipDelta(c, fn)
-			w := want[fn.String()]
-			c.Check(ok && d == w, "R15.2", fn.String(), "net-skip-change", fn.Pos(), "net change of the logger's callerSkip through %s, by exploring it with the receiver's callerSkip fixed (no options, no fields): %d %s (must be %d: Sugar adds %d, Desugar removes it, everything else keeps it)", fn.Name(), d, why, w, sugarK)
+			w := want[FStr(fn)]
+			c.Check(ok && d == w, "R15.2", FStr(fn), "net-skip-change", fn.Pos(), "net change of the logger's callerSkip through %s, by exploring it with the receiver's callerSkip fixed (no options, no fields): %d %s (must be %d: Sugar adds %d, Desugar removes it, everything else keeps it)", FNm(fn), d, why, w, sugarK)
 		}
 	}
 	// clone copies callerSkip (struct copy)
@@ -667,7 +667,7 @@ func c15Conversions(c *Ctx, sugarK int64) {
 				}
 			}
 		}
-		c.Check(ok, "R15.2", cl.String(), "copies-everything", cl.Pos(), "clone is a whole-struct copy (callerSkip included)")
+		c.Check(ok, "R15.2", FStr(cl), "copies-everything", cl.Pos(), "clone is a whole-struct copy (callerSkip included)")
 	}
 }
 
@@ -676,7 +676,7 @@ func c15CheckCallers(c *Ctx) {
 		fn := cl.Parent()
 		rn := RecvNamed(fn)
 		ok := rn != nil && rn.Obj().Name() == "Logger" && fn.Object() != nil && fn.Object().Exported() && fn.Parent() == nil
-		c.Check(ok, "R15.3", fn.String(), "check-caller", cl.Pos(), "check is called directly from an exported *Logger method (its skip offset assumes exactly that depth)")
+		c.Check(ok, "R15.3", FStr(fn), "check-caller", cl.Pos(), "check is called directly from an exported *Logger method (its skip offset assumes exactly that depth)")
 	}
 }
 
@@ -685,7 +685,7 @@ func c15Attach(c *Ctx) {
 	if !c.Anchor("R15.4", "zap.Logger.check", fn != nil) {
 		return
 	}
-	name := fn.String()
+	name := FStr(fn)
 	rn := PN(fn.Params[0])
 	resolve := func(st *ConcState, v ssa.Value) ssa.Value {
 		for k := 0; k < 16 && v != nil; k++ {
@@ -760,7 +760,7 @@ func c15Attach(c *Ctx) {
 				tf := func(n string, v bool) string { return n + "=" + map[bool]string{true: "T", false: "F"}[v] }
 				switch x := cond.(type) {
 				case *ssa.Call:
-					if x.Call.IsInvoke() && x.Call.Method.Name() == "Enabled" && strings.HasSuffix(st.Desc(x.Call.Value), ".addStack") {
+					if x.Call.IsInvoke() && FNm(x.Call.Method) == "Enabled" && strings.HasSuffix(st.Desc(x.Call.Value), ".addStack") {
 						// asked about the level of the entry as the cores accepted it (a core may re-level an entry), not
 						// about the level the caller asked for
 						okLvl := false
@@ -787,7 +787,7 @@ func c15Attach(c *Ctx) {
 						}
 					}
 					if IsNilConst(x.Y) {
-						if cl, ok := resolve(st, x.X).(*ssa.Call); ok && cl.Call.IsInvoke() && cl.Call.Method.Name() == "Check" {
+						if cl, ok := resolve(st, x.X).(*ssa.Call); ok && cl.Call.IsInvoke() && FNm(cl.Call.Method) == "Check" {
 							return tf("accepted", pol == (x.Op == token.NEQ))
 						}
 					}
@@ -923,7 +923,7 @@ func c15Attach(c *Ctx) {
 			}
 		})
 		if cs == nil || ss == nil {
-			c.Bad("R15.4", h.String(), "attach", h.Pos(), "expected stores to ce.Caller and ce.Stack")
+			c.Bad("R15.4", FStr(h), "attach", h.Pos(), "expected stores to ce.Caller and ce.Stack")
 		} else {
 			// (the test that the core accepted the record at all - a nil test of a *CheckedEntry, however it was obtained -
 			// is not part of the threshold)
@@ -945,7 +945,7 @@ func c15Attach(c *Ctx) {
 			if len(atoms) == 1 && strings.HasPrefix(atoms[0], "record.Level >= ") {
 				thrOK = hset(strings.TrimPrefix(atoms[0], "record.Level >= "), "addStackAt")
 			}
-			c.Check(thrOK, "R15.4", h.String(), "stack-iff-threshold", ss.Pos(), "a stack is attached exactly when record.Level >= addStackAt, compared on the slog level itself (guards %v)", atoms)
+			c.Check(thrOK, "R15.4", FStr(h), "stack-iff-threshold", ss.Pos(), "a stack is attached exactly when record.Level >= addStackAt, compared on the slog level itself (guards %v)", atoms)
 			// the skip handed to Take is the handler's callerSkip plus a constant (how large the constant has to be is
 			// decided by R15.1 on the whole chain, together with what NewHandler presets)
 			skipOK := false
@@ -953,7 +953,7 @@ func c15Attach(c *Ctx) {
 				l := evalLin(tk.Call.Args[0], nil, 0)
 				skipOK = l.syms["callerSkip"] == 1 && len(l.syms) == 1
 			}
-			c.Check(skipOK, "R15.4", h.String(), "stack-skip-expr", ss.Pos(), "the trace is taken with skip callerSkip + a constant (%s)", Desc(ss.Val))
+			c.Check(skipOK, "R15.4", FStr(h), "stack-skip-expr", ss.Pos(), "the trace is taken with skip callerSkip + a constant (%s)", Desc(ss.Val))
 			ga := AtomStrings(Guards(cs))
 			// the frame is resolved from record.PC (directly or in a helper that is handed record.PC)
 			fromPC, frames := false, false
@@ -990,8 +990,8 @@ func c15Attach(c *Ctx) {
 					}
 				})
 			}
-			c.Check(callerFields["PC"] && callerFields["File"] && callerFields["Line"] && callerFields["Function"] && callerFields["Defined"], "R15.4", h.String(), "caller-complete", cs.Pos(), "the caller carries Defined, PC, File, Line and Function of the resolved frame (set: %v)", callerFields)
-			c.Check(addCallerGuard && fromPC && frames, "R15.4", h.String(), "caller-from-record-pc", cs.Pos(), "the caller is resolved with runtime.CallersFrames from the PC slog recorded, under addCaller (guards %v)", ga)
+			c.Check(callerFields["PC"] && callerFields["File"] && callerFields["Line"] && callerFields["Function"] && callerFields["Defined"], "R15.4", FStr(h), "caller-complete", cs.Pos(), "the caller carries Defined, PC, File, Line and Function of the resolved frame (set: %v)", callerFields)
+			c.Check(addCallerGuard && fromPC && frames, "R15.4", FStr(h), "caller-from-record-pc", cs.Pos(), "the caller is resolved with runtime.CallersFrames from the PC slog recorded, under addCaller (guards %v)", ga)
 		}
 	}
 }
@@ -1011,7 +1011,7 @@ func c15Whole(c *Ctx) {
 	for _, cl := range callers {
 		skips[Desc(cl.Call.Args[0])] = true
 	}
-	c.Check(len(callers) >= 2 && len(skips) == 1, "R15.5", cp.String(), "same-skip-on-regrow", cp.Pos(), "every runtime.Callers call in Capture (initial and re-capture) uses the same skip expression (%v)", keys(skips))
+	c.Check(len(callers) >= 2 && len(skips) == 1, "R15.5", FStr(cp), "same-skip-on-regrow", cp.Pos(), "every runtime.Callers call in Capture (initial and re-capture) uses the same skip expression (%v)", keys(skips))
 	// growth loop, by path exploration with depth fixed to Full (up to two re-captures): the loop is left - and the
 	// frames handed on - only after a capture that did NOT fill its buffer (a full buffer may have been truncated)
 	fullV, okFull := c.ConstVal("go.uber.org/zap/internal/stacktrace", "Full")
@@ -1119,7 +1119,7 @@ func c15Whole(c *Ctx) {
 				bad = append(bad, sq)
 			}
 		}
-		c.Check(!trunc && len(seqs) > 0 && nGrow > 0 && len(bad) == 0, "R15.5", cp.String(), "grows-until-not-full", cp.Pos(), "with depth = Full, on every path (%d explored, up to two re-captures; %d longer ones cut) the frames are handed on only after a capture that came back with room to spare; a full buffer is always re-captured into a bigger one (offending: %v)", len(seqs), cut, bad)
+		c.Check(!trunc && len(seqs) > 0 && nGrow > 0 && len(bad) == 0, "R15.5", FStr(cp), "grows-until-not-full", cp.Pos(), "with depth = Full, on every path (%d explored, up to two re-captures; %d longer ones cut) the frames are handed on only after a capture that came back with room to spare; a full buffer is always re-captured into a bigger one (offending: %v)", len(seqs), cut, bad)
 	}
 	// pcs cut to the number of frames captured: by path exploration with depth fixed to each of its constants (up to
 	// two re-captures), what is handed to runtime.CallersFrames is buf[:n] where n is what a runtime.Callers call
@@ -1175,7 +1175,7 @@ func c15Whole(c *Ctx) {
 				}
 			}
 		}
-		c.Check(nUse >= 2 && len(bad) == 0, "R15.5", cp.String(), "cut-to-count", cp.Pos(), "with depth First and with depth Full, on every path the frames handed on are the buffer of a runtime.Callers call cut to exactly the count that call returned: %v", uniqSorted(bad))
+		c.Check(nUse >= 2 && len(bad) == 0, "R15.5", FStr(cp), "cut-to-count", cp.Pos(), "with depth First and with depth Full, on every path the frames handed on are the buffer of a runtime.Callers call cut to exactly the count that call returned: %v", uniqSorted(bad))
 	}
 	fs := c.Method("go.uber.org/zap/internal/stacktrace", "Formatter", "FormatStack")
 	if c.Anchor("R15.5", "stacktrace.Formatter.FormatStack", fs != nil) {
@@ -1194,7 +1194,7 @@ func c15Whole(c *Ctx) {
 				}
 			}
 		}
-		c.Check(ok, "R15.5", fs.String(), "drops-only-last", fs.Pos(), "every frame is formatted while more frames follow; only the final (runtime) frame is dropped")
+		c.Check(ok, "R15.5", FStr(fs), "drops-only-last", fs.Pos(), "every frame is formatted while more frames follow; only the final (runtime) frame is dropped")
 	}
 }
 
@@ -1233,7 +1233,7 @@ func c15ConfigAnnotations(c *Ctx, rule string) {
 						return 0, false
 					},
 					Inline: func(h *ssa.Function) bool {
-						return h.Name() != "AddCaller" && h.Name() != "AddStacktrace" && h.Name() != "Development" && h.Name() != "Fields" && h.Name() != "WrapCore" && h.Name() != "ErrorOutput"
+						return FNm(h) != "AddCaller" && FNm(h) != "AddStacktrace" && FNm(h) != "Development" && FNm(h) != "Fields" && FNm(h) != "WrapCore" && FNm(h) != "ErrorOutput"
 					},
 					Event: func(in ssa.Instruction, st *ConcState) string {
 						x, ok := in.(*ssa.Call)
@@ -1277,7 +1277,7 @@ func c15ConfigAnnotations(c *Ctx, rule string) {
 				})
 				tag := "Development=" + itoa(int(d0)) + " DisableCaller=" + itoa(int(c0)) + " DisableStacktrace=" + itoa(int(s0)) + ": "
 				if trunc || len(seqs) == 0 {
-					c.Und(rule, fn.String(), "annotations-as-configured", fn.Pos(), "path exploration incomplete (%s)", tag)
+					c.Und(rule, FStr(fn), "annotations-as-configured", fn.Pos(), "path exploration incomplete (%s)", tag)
 					return
 				}
 				want := map[string]bool{}
@@ -1313,5 +1313,5 @@ func c15ConfigAnnotations(c *Ctx, rule string) {
 			}
 		}
 	}
-	c.Check(len(bad) == 0 && n >= 8, rule, fn.String(), "annotations-as-configured", fn.Pos(), "for each of the 8 combinations of Development / DisableCaller / DisableStacktrace: AddCaller iff callers are not disabled, AddStacktrace iff stack traces are not disabled (WarnLevel in development, ErrorLevel otherwise), Development() iff development: %v", bad)
+	c.Check(len(bad) == 0 && n >= 8, rule, FStr(fn), "annotations-as-configured", fn.Pos(), "for each of the 8 combinations of Development / DisableCaller / DisableStacktrace: AddCaller iff callers are not disabled, AddStacktrace iff stack traces are not disabled (WarnLevel in development, ErrorLevel otherwise), Development() iff development: %v", bad)
 }
